@@ -12,6 +12,9 @@ package streams
 //@   ensures result.numBuckets == uint32(result.NumStreams/64) && len(result.streams) == int(result.numBuckets)
 //@   ensures result.streams[0] == 1<<63 && result.offset < result.numBuckets && result.inuseStreams == 0
 //@   ensures forall(k, 1 <= k && k < len(result.streams), result.streams[k] == 0)
+// New establishes the object invariant (GetStream/Clear `requires`) and the global invariant (`atomic_inv`):
+//@   ensures (result.numBuckets == 2 || result.numBuckets == 512) && len(result.streams) == int(result.numBuckets) && result.NumStreams == int(result.numBuckets)*64
+//@   ensures result.streams[0] & (1<<63) != 0 && result.offset < result.numBuckets
 
 //@ func streamFromBucket
 //@   props C08
